@@ -23,6 +23,8 @@ CONSTANTS Operands,     \* set of integer literals
           Pres,         \* subset of {"", "not", "neg"}: prefixes allowed on an operand
           MaxOps,       \* maximal number of binary operators in one expression
           LongOperands, LongOps, LongPres,   \* what an expression with more than two operators is built from
+          RightTakesRest,  \* FALSE: interpretOps as repaired in /repo (the right operand is the run of tighter operators);
+                        \* TRUE only in *_known cfgs: everything after an operator goes to its right operand
           GoRemainder,  \* FALSE: the algorithm model takes % as repaired in /repo (ad24364, Python's sign rule);
                         \* TRUE only in *_known cfgs: Go's truncated remainder, as before the repair
           Emit
@@ -147,22 +149,42 @@ AUn(op, a) == IF IsErr(a) THEN a
               ELSE IF op = "not" THEN B(~Truthy(a))
               ELSE IF a.k = "int" THEN I(0 - a.i) ELSE Err  \* "Unary - can only be applied to an integer"
 
-RECURSIVE AInterpOps(_, _)
+RECURSIVE AInterpOpsOld(_, _)
+RECURSIVE AClimb(_, _)
 AInterpOp(obj, o) ==
   IF IsErr(obj) THEN obj
   ELSE IF o.un THEN AUn(o.op, obj)
   ELSE IF o.op \in {"and", "or"} THEN IF Truthy(obj) = (o.op = "and") THEN I(o.v) ELSE obj
   ELSE ABin(o.op, obj, I(o.v))
-AInterpOps(obj, ops) ==
+\* the pinned interpretOps (RightTakesRest): when a tighter operator follows, ALL remaining operators go to the right operand
+AInterpOpsOld(obj, ops) ==
   IF IsErr(obj) THEN obj
   ELSE IF Len(ops) = 1 THEN AInterpOp(obj, ops[1])
-  ELSE IF Prec(ops[1].op) >= Prec(ops[2].op) THEN AInterpOps(AInterpOp(obj, ops[1]), Tail(ops))
+  ELSE IF Prec(ops[1].op) >= Prec(ops[2].op) THEN AInterpOpsOld(AInterpOp(obj, ops[1]), Tail(ops))
   ELSE IF ops[1].op \in {"and", "or"} /\ Truthy(obj) # (ops[1].op = "and") THEN obj
-  ELSE IF ops[1].un THEN AInterpOp(AInterpOps(obj, Tail(ops)), ops[1])
-  ELSE LET nobj == AInterpOps(I(ops[1].v), Tail(ops)) IN      \* ALL remaining operators go to the right operand
+  ELSE IF ops[1].un THEN AInterpOp(AInterpOpsOld(obj, Tail(ops)), ops[1])
+  ELSE LET nobj == AInterpOpsOld(I(ops[1].v), Tail(ops)) IN
        IF ops[1].op \in {"and", "or"}
        THEN IF IsErr(nobj) THEN nobj ELSE IF Truthy(obj) = (ops[1].op = "and") THEN nobj ELSE obj
        ELSE ABin(ops[1].op, obj, nobj)
+\* the repaired interpretOps: the right operand of an operator is the run of operators that bind tighter than it
+RECURSIVE TightRun(_, _, _)
+TightRun(ops, p, k) == IF k <= Len(ops) /\ Prec(ops[k].op) > p THEN TightRun(ops, p, k + 1) ELSE k
+AClimb(obj, ops) ==
+  IF IsErr(obj) \/ ops = <<>> THEN obj
+  ELSE LET op == ops[1]
+           n == TightRun(ops, Prec(op.op), 2)
+           tighter == SubSeq(ops, 2, n - 1)
+           rest == SubSeq(ops, n, Len(ops))
+           lazy == op.op \in {"and", "or"}
+           res == IF tighter = <<>> THEN AInterpOp(obj, op)
+                  ELSE IF lazy /\ Truthy(obj) # (op.op = "and") THEN obj
+                  ELSE IF op.un THEN AInterpOp(AClimb(obj, tighter), op)
+                  ELSE LET nobj == AClimb(I(op.v), tighter) IN
+                       IF lazy THEN (IF IsErr(nobj) THEN nobj ELSE IF Truthy(obj) = (op.op = "and") THEN nobj ELSE obj)
+                       ELSE ABin(op.op, obj, nobj)
+       IN AClimb(res, rest)
+AInterpOps(obj, ops) == IF RightTakesRest THEN AInterpOpsOld(obj, ops) ELSE AClimb(obj, ops)
 AEval(s) == IF AOps(s) = <<>> THEN I(s[1].v) ELSE AInterpOps(I(s[1].v), AOps(s))
 
 \* ---------------------------------------------------------------- difference classes (for finding signatures)
@@ -177,7 +199,7 @@ ModSign(s) == LET ts == Split(s, AllOps \ MulOps) IN
               \E a \in 1..Len(ts) : TermFrom(ts[a], 2, Factor(ts[a][1]), TRUE) # PyTerm(ts[a])
 
 ClassOf(s, py, al) == IF py = al THEN "agree"
-                      ELSE IF LoHiLo(s) THEN "lo-hi-lo"
+                      ELSE IF RightTakesRest /\ LoHiLo(s) THEN "lo-hi-lo"
                       ELSE IF ChainCmp(s) THEN "chain-cmp"
                       ELSE IF GoRemainder /\ ModSign(s) THEN "mod-sign"
                       ELSE "other"
@@ -203,7 +225,7 @@ Spec == Init /\ [][Next]_vars
 \* property allows.
 Agreement == LET py == PyEval(e)
                  al == AEval(e) IN
-             (~IsErr(al) /\ ~IsErr(py) /\ ~LoHiLo(e) /\ ~ChainCmp(e) /\ ~(GoRemainder /\ ModSign(e))) => al = py
+             (~IsErr(al) /\ ~IsErr(py) /\ (RightTakesRest => ~LoHiLo(e)) /\ ~ChainCmp(e) /\ ~(GoRemainder /\ ModSign(e))) => al = py
 \* sanity of the transcription: floor division and modulo obey the division identity with Python's sign rule
 ASSUME DivIdentity == \A a \in Operands, b \in Operands \ {0} : /\ a = b * FloorDiv(a, b) + PyMod(a, b)
                                                                 /\ (b > 0 => PyMod(a, b) \in 0..(b - 1))
@@ -225,7 +247,7 @@ Show(v) == IF v.k \in {"err", "gar"} THEN [k |-> v.k] ELSE IF v.k = "bool" THEN 
 \* one pass per state: the relation between the levels, then the case
 CheckAndEmit == LET py == PyEval(e)
                     al == AEval(e) IN
-                /\ (~IsErr(al) /\ ~IsErr(py) /\ ~LoHiLo(e) /\ ~ChainCmp(e) /\ ~(GoRemainder /\ ModSign(e))) => al = py
+                /\ (~IsErr(al) /\ ~IsErr(py) /\ (RightTakesRest => ~LoHiLo(e)) /\ ~ChainCmp(e) /\ ~(GoRemainder /\ ModSign(e))) => al = py
                 /\ Emit =>
                     PrintT(<<"CASE", ToJson([toks |-> e, expect |-> Show(py), algo |-> Show(al),
                                              cls |-> ClassOf(e, py, al)])>>)
